@@ -128,9 +128,13 @@ CHECKS = {
  "C14": ("Kernel-checked Lean theorems: for ALL f32 and f64 bit patterns the model of try_parse_from_f32/f64 (normal path with trailing-zero reduction and powers of five, subnormal routines with the "
          "multi-limb constants regenerated from the source, +-0) denotes exactly the IEEE value (-1)^s m 2^e, NaN/inf give errors (C14_ofF32_exact, C14_ofF64_exact, C14_nan_inf); the limb constants "
          "equal 5^149 and 5^1074 (kernel evaluation). Correspondence: exact comparison on every exponent field and random patterns; bit-exact f -> decimal -> f64 round trip; to_f64 on arbitrary "
-         "decimals judged in exact rational arithmetic (sign, 2^-48, subnormal step, infinity only near MAX). to_f64's internals use f64 primitives and are judged per input, not modelled.",
-         NOTE_COMMON + " PARTIAL for to_f64: its tolerance is checked per sampled input (IEEE behaviour of BigUint::to_f64, powi, str::parse is outside the model).",
-         "Lean 4 proof (all bit patterns) + exact-rational oracle for to_f64 + differential correspondence", "DESIGN.md §5 C14"),
+         "decimals judged in exact rational arithmetic (sign, 2^-48, subnormal step, infinity only near MAX). to_f64 itself has a BIT-EXACT executable Lean model (digit trimming, then "
+         "BigUint::to_f64 / compiler-rt powi by repeated squaring / IEEE multiplication / the std float parser, all expressed through one correctly-rounded primitive rne computed in exact rational "
+         "arithmetic) compared with the 64 result bits of the real code on every generated decimal; kernel-checked: C14_rne_nearest (rne is round-to-nearest: relative error <= 2^-53 in the normal "
+         "range, absolute error <= 2^-1075 below it, or infinity), C14_toF64_integer (the scale-0 path is the sign bit plus the correctly rounded magnitude), C14_toF64_zero.",
+         NOTE_COMMON + " PARTIAL for to_f64: the end-to-end 2^-48 tolerance through the powi path (several rounded multiplications) is checked per generated decimal, not yet composed from "
+         "C14_rne_nearest; the model's digit estimate uses Lean's IEEE doubles (opaque to the kernel) and is tied by the bit-exact correspondence.",
+         "Lean 4 proof (all bit patterns; round-to-nearest primitive) + bit-exact to_f64 model + exact-rational oracle + differential correspondence", "DESIGN.md §5 C14"),
  "C20": ("Translator half: the extractor re-reads on every run which identifier each implicit-default site references (Context::default, RoundingMode::default, round, sqrt/cbrt/inverse, division, "
          "exp target and term precision, Display thresholds and integer no-padding limit) and the kernel-checked theorem C20_default_sites_ok fails if any of them is a literal instead of the "
          "generated constant; model theorems: division uses cfg.precision, Display's notation choice is the stated function of the configured thresholds, the no-padding limit is the configured "
